@@ -63,6 +63,7 @@ type Cfg struct {
 	ParamChanges       bool          // change tss params mid history
 	FeeChanges         bool          // change bandtss fee_per_signer mid history (signings in flight keep the fee they were charged)
 	GovVotingPeriod    time.Duration // > 0: x/gov is usable with this voting period (sim.Config.GovVotingPeriod)
+	AbortedProposalPct int           // primary only: optimistic execution of proposals that are then not decided (sim.Config)
 	DEOps              bool          // resets, over-limit submissions
 	Inflation          bool
 	InitialDEs         int
@@ -220,7 +221,7 @@ func NewHist(run *sim.Run, label string, caseID int, cfg Cfg, mons func(h *Hist)
 	if nv == 0 {
 		nv = 3
 	}
-	w := sim.NewWorld(sim.Config{GovVotingPeriod: cfg.GovVotingPeriod,
+	w := sim.NewWorld(sim.Config{GovVotingPeriod: cfg.GovVotingPeriod, AbortedProposalPct: cfg.AbortedProposalPct,
 		Seed: rng.U64(), ChainID: chainID, NumVals: nv, NumUsers: cfg.NMembers + 3 + cfg.ExtraUsers, NoInflation: !cfg.Inflation,
 		Genesis: func(w *sim.World, gs band.GenesisState) {
 			cdc := w.App.AppCodec()
